@@ -25,6 +25,7 @@ func init() {
 			runKVCoupling(p, r)
 			runSlotFill(p, r, "C28")
 			runPresenceByKey(p, r)
+			runEmptyTokenFilter(p, r)
 		},
 	})
 	register(&propDef{
@@ -39,6 +40,7 @@ func init() {
 			runPerFieldDecision(p, r)
 			runSpecialSingleValued(p, r)
 			runDelCoversGenericList(p, r)
+			runCollectRemovesWhatItParsed(p, r)
 		},
 	})
 }
@@ -1062,4 +1064,157 @@ func runDelCoversGenericList(p *Prog, r *Report) {
 	}, nil)
 	r.Check("R-del", "RequestHeader.del removes the name from the generic field list on every path", hit == nil, p.Pos(fn.Pos()),
 		"a return is reachable without delAllArgs(h.h, key): on a header read from the wire the Cookie lines (and, with special headers disabled, every special name) still sit in the generic list, so Del leaves them visible to Peek, PeekAll, the cookie getters and the serialised header", blocksString(p, path)...)
+}
+
+// runEmptyTokenFilter (C28.R-empty): parsing drops exactly the entries whose key and value are both empty. In
+// Args.ParseBytes the slot of a scanned entry is kept (a next slot is allocated) under a condition that is made of
+// nothing but the lengths of the slot's key and of its value, compared with zero, and it involves both: a condition
+// that looks at anything else (the has-'=' flag) keeps or drops a different set of entries.
+func runEmptyTokenFilter(p *Prog, r *Report) {
+	fn := p.Func("(*Args).ParseBytes")
+	next := p.Func("(*argsScanner).next")
+	alloc := p.Func("allocArg")
+	if fn == nil || next == nil || alloc == nil {
+		r.Undecided("R-empty", "(*Args).ParseBytes / (*argsScanner).next / allocArg", "not found")
+		return
+	}
+	var scan *ssa.Call
+	allCalls(fn, func(b *ssa.BasicBlock, c ssa.CallInstruction) {
+		if cv, ok := c.(*ssa.Call); ok && cv.Call.StaticCallee() == next {
+			scan = cv
+		}
+	})
+	if scan == nil {
+		r.Undecided("R-empty", "ParseBytes: the scanner call", "not found")
+		return
+	}
+	header := loopHeaderOf(scan.Block())
+	n := 0
+	for _, b := range fn.Blocks {
+		for _, in := range b.Instrs {
+			c, ok := in.(*ssa.Call)
+			if !ok || c.Call.StaticCallee() != alloc || header == nil || !inLoop(header, b) || b == scan.Block() {
+				continue
+			}
+			n++
+			// the conditions between the scanner's verdict and this allocation
+			lens := map[string]bool{}
+			var other []string
+			var leaf func(v ssa.Value, d int)
+			leaf = func(v ssa.Value, d int) {
+				if d > 8 {
+					other = append(other, "deep")
+					return
+				}
+				switch x := v.(type) {
+				case *ssa.Phi:
+					for _, e := range x.Edges {
+						if cst, ok := e.(*ssa.Const); ok && cst.Value != nil && (cst.Value.ExactString() == "true" || cst.Value.ExactString() == "false") {
+							continue
+						}
+						leaf(e, d+1)
+					}
+				case *ssa.UnOp:
+					if x.Op == token.NOT {
+						leaf(x.X, d+1)
+						return
+					}
+					other = append(other, x.String())
+				case *ssa.BinOp:
+					var o ssa.Value
+					if k, ok := constInt(x.Y); ok && k == 0 {
+						o = x.X
+					} else if k, ok := constInt(x.X); ok && k == 0 {
+						o = x.Y
+					}
+					if cl, ok := o.(*ssa.Call); ok {
+						if bi, ok := cl.Call.Value.(*ssa.Builtin); ok && bi.Name() == "len" && len(cl.Call.Args) == 1 {
+							if _, fv := loadedField(cl.Call.Args[0]); fv != nil {
+								lens[fv.Name()] = true
+								return
+							}
+						}
+					}
+					other = append(other, x.String())
+				default:
+					other = append(other, v.String())
+				}
+			}
+			cur := b
+			for cur != nil && cur != scan.Block() {
+				d := cur.Idom()
+				if d == nil {
+					break
+				}
+				if iff, ok := d.Instrs[len(d.Instrs)-1].(*ssa.If); ok && d != scan.Block() && inLoop(header, d) {
+					leaf(iff.Cond, 0)
+				}
+				cur = d
+			}
+			// '||' of two tests compiles to a chain of Ifs: the ones that can reach this block without passing each other
+			for _, pr := range b.Preds {
+				if iff, ok := pr.Instrs[len(pr.Instrs)-1].(*ssa.If); ok && pr != scan.Block() && inLoop(header, pr) {
+					leaf(iff.Cond, 0)
+				}
+			}
+			sort.Strings(other)
+			r.Check("R-empty", "Args.ParseBytes keeps a scanned entry exactly when its key or its value is non-empty (the condition is made of len(key) and len(value) only)", lens["key"] && lens["value"] && len(other) == 0, p.Pos(c.Pos()),
+				fmt.Sprintf("lengths tested: key=%v value=%v; other operands of the condition: %s - entries with an empty key and an empty value are then not the ones that are dropped ('=' alone is kept as an entry, or 'k' without '=' is lost)", lens["key"], lens["value"], strings.Join(other, "; ")))
+		}
+	}
+	r.Floor("R-empty", "slot allocations in ParseBytes' scan loop", n, 1)
+}
+
+// runCollectRemovesWhatItParsed (C29.R-collect): RequestHeader.collectCookies moves the Cookie lines of a parsed
+// request from the generic list into the cookie list. A line it recognised - case-insensitively, the parser keeps the
+// wire spelling when normalisation is off - and parsed must leave the generic list, or the cookies are listed,
+// serialised and deleted twice from then on. From every call that parses an entry's value into the cookie list,
+// every path to the function's return passes the removal of the entry: a store that shrinks the generic list inside
+// the loop iteration, or a later call of a deleter that itself compares the stored names case-insensitively. An
+// exact-name deleter removes a different set of lines than the loop recognised.
+func runCollectRemovesWhatItParsed(p *Prog, r *Report) {
+	fn := p.Func("(*RequestHeader).collectCookies")
+	parse := p.Func("parseRequestCookies")
+	if fn == nil || parse == nil {
+		r.Undecided("R-collect", "(*RequestHeader).collectCookies / parseRequestCookies", "not found")
+		return
+	}
+	removes := func(i ssa.Instruction) bool {
+		switch x := i.(type) {
+		case *ssa.Store:
+			if _, fv := fieldOfAddr(x.Addr); fv != nil && fv.Name() == "h" {
+				if sl, ok := x.Val.(*ssa.Slice); ok && sl.High != nil {
+					return true // h.h = h.h[:n]
+				}
+				if c, ok := x.Val.(*ssa.Call); ok && c.Call.StaticCallee() != nil && deletesAnyCase(c.Call.StaticCallee(), 2) {
+					return true // h.h = <any-case deleter>(h.h, ...)
+				}
+			}
+		case ssa.CallInstruction:
+			if f := x.Common().StaticCallee(); f != nil && inModule(f) && recvTypeName(f) == "RequestHeader" && f != fn && deletesAnyCase(f, 2) {
+				return true
+			}
+		}
+		return false
+	}
+	n := 0
+	for _, b := range fn.Blocks {
+		for _, in := range b.Instrs {
+			c, ok := in.(*ssa.Call)
+			if !ok || c.Call.StaticCallee() != parse {
+				continue
+			}
+			n++
+			hit, path := reachAvoiding(fn, in, func(i ssa.Instruction) bool {
+				if isReturn(i) {
+					return true
+				}
+				// the next entry's turn: the same parse call again
+				return i == in
+			}, removes, nil)
+			r.Check("R-collect", "collectCookies removes from the generic list every line it parsed into the cookie list", hit == nil, p.Pos(in.Pos()),
+				"from the call that parses a recognised Cookie line the next iteration or the return is reachable without a removal of that entry (a shrinking store to the list, or a deleter that compares stored names case-insensitively): with normalisation off a line spelled 'cookie:' is parsed into the cookie list and stays in the generic list - listed twice, written twice, and untouched by DelCookie / Del(\"Cookie\")", blocksString(p, path)...)
+		}
+	}
+	r.Floor("R-collect", "calls that parse a generic-list entry into the cookie list in collectCookies", n, 1)
 }
